@@ -432,6 +432,10 @@ def render_fn(sf, item, d, drops, em, canary, take_opts=()):
             em.emit_fixed(a, 'unit', d.line)
     if 'external_body' in opts:
         em.emit_fixed('#[verifier::external_body]', 'unit', d.line if d else 0)
+    elif 'body=unimplemented' not in opts and 'isolate' not in opts and not any('loop_isolation' in a for a in (d.attrs if d else [])):
+        # loops see the facts established before them about variables they do not modify: hoisting an expression into a
+        # `let` in front of a loop (a behaviour-preserving edit) must not lose the stored proof
+        em.emit_fixed('#[verifier::loop_isolation(false)]', 'unit', d.line if d else 0)
     sig = src[sig_start:body_open]
     # name the return value
     ret = d.ret if d else None
